@@ -54,9 +54,9 @@ func Div(A, B tensor.Tensor) (tensor.Tensor, error) {
 
 	switch divisor := IfScalarToSlice(B.Data()).(type) {
 	case []float32:
-		fixDivisionByZero(IfScalarToSlice(out.Data()), IfScalarToSlice(A.Data()), divisor)
+		return fixDivisionByZero(out, IfScalarToSlice(A.Data()), divisor), nil
 	case []float64:
-		fixDivisionByZero(IfScalarToSlice(out.Data()), IfScalarToSlice(A.Data()), divisor)
+		return fixDivisionByZero(out, IfScalarToSlice(A.Data()), divisor), nil
 	}
 
 	return out, nil
@@ -64,12 +64,12 @@ func Div(A, B tensor.Tensor) (tensor.Tensor, error) {
 
 // fixDivisionByZero recomputes the elements of quotient whose divisor is zero. The operands
 // of Div have the same shape, so their backings are aligned.
-func fixDivisionByZero[T FloatType](quotient, dividend any, divisor []T) {
-	q, okQ := quotient.([]T)
+func fixDivisionByZero[T FloatType](quotient tensor.Tensor, dividend any, divisor []T) tensor.Tensor {
+	q, okQ := IfScalarToSlice(quotient.Data()).([]T)
 	a, okA := dividend.([]T)
 
 	if !okQ || !okA || len(q) != len(divisor) || len(a) != len(divisor) {
-		return
+		return quotient
 	}
 
 	for i, d := range divisor {
@@ -77,6 +77,13 @@ func fixDivisionByZero[T FloatType](quotient, dividend any, divisor []T) {
 			q[i] = a[i] / d
 		}
 	}
+
+	// The backing of a scalar tensor is a value, not a slice: q is a copy of it.
+	if quotient.IsScalar() {
+		return tensor.New(tensor.FromScalar(q[0]))
+	}
+
+	return quotient
 }
 
 // Mul multiplies 2 tensors with each other.
